@@ -342,7 +342,7 @@ func (c *Ctx) paramOfType(fd *ast.FuncDecl, typeName string) types.Object {
 func (c *Ctx) callCoverage(fam *expFamily, fd *ast.FuncDecl, oc *originCtx, hp types.Object, typ string, call *ast.CallExpr, depth int) map[string]string {
 	out := map[string]string{}
 	g, ok := c.callee(call).(*types.Func)
-	if !ok || g.Pkg() != c.Types || len(call.Args) == 0 {
+	if !ok || g.Pkg() != c.Types {
 		return out
 	}
 	// whole-holder delegation
@@ -361,6 +361,44 @@ func (c *Ctx) callCoverage(fam *expFamily, fd *ast.FuncDecl, oc *originCtx, hp t
 				for p, w := range c.holderCoverage(fam, gfd, gp, typ, depth+1) {
 					if prev, had := out[p]; !had || (prev != "" && w == "") {
 						out[p] = w
+					}
+				}
+			}
+		}
+	}
+	// delegation through a parameter object: the holder is packed into a field of a small unexported struct and
+	// the work is done by that struct's methods; what a method covers below recv.<field> is covered below the holder
+	if se, isSel := unparen(call.Fun).(*ast.SelectorExpr); isSel && depth < 2 {
+		if sel := c.Info.Selections[se]; sel != nil && sel.Kind() == types.MethodVal {
+			if nt, isNT := types.Unalias(derefType(c.typeOf(se.X))).(*types.Named); isNT && nt.Obj().Pkg() == c.Types && !nt.Obj().Exported() {
+				if st, isSt := nt.Underlying().(*types.Struct); isSt {
+					if gfd := c.decl(g); gfd != nil && gfd.Body != nil && c.recvObj(gfd) != nil {
+						for k := 0; k < st.NumFields(); k++ {
+							fv := c.carrierFieldValue(fd, se.X, st.Field(k))
+							if fv == nil {
+								continue
+							}
+							whole := false
+							for _, o := range oc.origins(fv, 0) {
+								if o.root == hp && len(o.steps) == 0 && !o.copy {
+									whole = true
+								}
+							}
+							if !whole {
+								continue
+							}
+							c.saw(c.funcName(gfd))
+							fname := st.Field(k).Name()
+							for p, w := range c.holderCoverage(fam, gfd, c.recvObj(gfd), "", depth+1) {
+								if !hasPathPrefix(p, fname) || p == fname {
+									continue
+								}
+								key := trimPathPrefix(p, fname)
+								if prev, had := out[key]; !had || (prev != "" && w == "") {
+									out[key] = w
+								}
+							}
+						}
 					}
 				}
 			}
@@ -402,6 +440,9 @@ func (c *Ctx) callCoverage(fam *expFamily, fd *ast.FuncDecl, oc *originCtx, hp t
 				return out // a family member that works on a container, not on one element
 			}
 		}
+	}
+	if len(call.Args) == 0 {
+		return out
 	}
 	res := c.resultVarOfCall(fd, call)
 	for _, o := range oc.origins(call.Args[0], 0) {
